@@ -102,7 +102,7 @@ EXPORT errno_t _wcsncpy_s_chk(wchar_t *restrict dest, rsize_t dmax,
     const wchar_t *overlap_bumper;
     const size_t destsz = dmax * sizeof(wchar_t);
 
-    if (unlikely(slen == 0 && dest && dmax)) {
+    if (unlikely(slen == 0 && dest && dmax && dmax <= RSIZE_MAX_WSTR)) {
         *dest = L'\0';
         return EOK;
     }
